@@ -29,6 +29,7 @@ use crate::{
     protocol::{FLOODSUB_PROTOCOL, ProtocolConfig, ProtocolId},
     types::{Message, MessageId, PeerKind},
 };
+#[cfg(libp2p_verif)] #[path = "verif_c34_cfg.rs"] pub mod verif_c34_cfg;
 
 /// The types of message validation that can be employed by gossipsub.
 #[derive(Debug, Clone)]
